@@ -19,6 +19,7 @@ struct Progress {
     pattern_ok: bool,
     done: bool,
     polls: usize,
+    io_error: bool,
 }
 
 /// a second handle on an fd somebody else owns (never closes it)
@@ -156,8 +157,15 @@ fn run_case(lines: &[String], out: &mut impl Write) {
                             }
                             Pin::new(&mut io).poll_read(cx, &mut buf[..want])
                         })
-                        .await
-                        .unwrap();
+                        .await;
+                        let n = match n {
+                            Ok(n) => n,
+                            Err(_) => {
+                                // an operation on the adapter failed (e.g. its registration is gone): the transfer stops
+                                prog.borrow_mut().io_error = true;
+                                return;
+                            }
+                        };
                         if n == 0 {
                             break;
                         }
@@ -183,8 +191,14 @@ fn run_case(lines: &[String], out: &mut impl Write) {
                             }
                             Pin::new(&mut io).poll_write(cx, &buf[..want])
                         })
-                        .await
-                        .unwrap();
+                        .await;
+                        let n = match n {
+                            Ok(n) => n,
+                            Err(_) => {
+                                prog.borrow_mut().io_error = true;
+                                return;
+                            }
+                        };
                         prog.borrow_mut().moved += n;
                     }
                 }
@@ -292,7 +306,7 @@ fn run_case(lines: &[String], out: &mut impl Write) {
             op,
             p.moved,
             peer_pos,
-            (p.pattern_ok && peer_ok) as u8,
+            (p.pattern_ok && peer_ok && !p.io_error) as u8,
             p.done as u8,
             armed(epfd, raw),
             is_nonblock(&probe) as u8
